@@ -1,4 +1,6 @@
 """C12 - graph queries agree with their graph-theoretic definitions."""
+import zlib
+
 from rv.gen import circuits as G
 from rv.oracle import graphdefs as D
 from rv.oracle.sim import Net
@@ -103,6 +105,29 @@ def gen_star(rng):
     return {"c": cd, "kind": "star", "star": mode, "lists": [rng.sample(nodes, min(3, len(nodes)))], "singles": ["h"] + rng.sample(nodes, 2), "k": rng.randint(1, 2), "via": rng.choice(["graph", "api"]), "edit": None}
 
 
+class Watched:
+    """A node-set argument together with a copy of its contents: every look at it (repr / final) reports a query that edited it."""
+
+    def __init__(self, obj, viol, ctx):
+        self.obj, self.copy, self.viol, self.ctx, self.done = obj, list(obj), viol, ctx, False
+
+    def final(self):
+        if not self.done and (type(self.obj)(self.copy) != self.obj or len(self.obj) != len(self.copy)):
+            self.done = True
+            self.viol("argument_modified", f"a query changed its node-set argument from {sorted(self.copy)} to {sorted(self.obj)}")
+        self.ctx.count("cmp:argument_unchanged")
+
+    def __repr__(self):
+        return repr(self.obj)
+
+
+def unw(a):
+    if isinstance(a, Watched):
+        a.final()
+        return a.obj
+    return a
+
+
 def check(case, ctx):
     if "lib" in case:
         import random
@@ -201,10 +226,16 @@ def queries(case, ctx, c, singles, lists, phase=""):
     ep_all = set(net.outputs) | {n for n, t in types.items() if t == "bb_input"}
     args = [(n, [n]) for n in singles] + [(l, l) for l in lists]
     for arg, ns in args:
-        a = arg if isinstance(arg, str) else list(arg)
         tag = "1" if isinstance(arg, str) else "L"
+        if isinstance(arg, str):
+            a = arg
+        else:
+            # one container object reused for every query, as a caller would; the queries must leave it alone
+            kindc = (list, set, tuple, frozenset)[zlib.crc32(repr(sorted(arg)).encode()) % 4]
+            a = Watched(kindc(arg), viol, ctx)
+            ctx.count(f"nodes_as:{kindc.__name__}")
         for op, adj in (("fanin", preds), ("fanout", succs)):
-            ok, r = ctx.call(getattr(c, op), a)
+            ok, r = ctx.call(getattr(c, op), unw(a))
             want = set()
             for n in ns:
                 want |= set(adj[n])
@@ -217,19 +248,19 @@ def queries(case, ctx, c, singles, lists, phase=""):
             anc |= D.proper_reach(preds, n)
             desc |= D.proper_reach(succs, n)
         for op, want in (("transitive_fanin", anc), ("transitive_fanout", desc)):
-            ok, r = ctx.call(getattr(c, op), a)
+            ok, r = ctx.call(getattr(c, op), unw(a))
             if not ok:
                 viol(op, f"{op}({a!r}) raised {r!r}")
             else:
                 cmp(op + tag, r, want, a)
         for op, want in (("startpoints", (set(ns) | anc) & sp_all), ("endpoints", (set(ns) | desc) & ep_all)):
-            ok, r = ctx.call(getattr(c, op), a)
+            ok, r = ctx.call(getattr(c, op), unw(a))
             if not ok:
                 viol(op, f"{op}({a!r}) raised {r!r}")
             else:
                 cmp(op + tag, r, want, a)
         for op, adj in (("fanout_depth", succs), ("fanin_depth", preds)):
-            ok, r = ctx.call(getattr(c, op), a)
+            ok, r = ctx.call(getattr(c, op), unw(a))
             if cyc:
                 ctx.count("cmp:depth_rejects_cyclic")
                 if ok or not isinstance(r, ValueError):
@@ -238,6 +269,8 @@ def queries(case, ctx, c, singles, lists, phase=""):
                 viol(op, f"{op}({a!r}) raised {r!r}")
             else:
                 cmp(op + tag, r, D.longest_from(adj, ns), a)
+        if isinstance(a, Watched):
+            a.final()
     # whole-circuit startpoints / endpoints
     for op, want in (("startpoints", sp_all), ("endpoints", ep_all)):
         ok, r = ctx.call(getattr(c, op))
